@@ -79,6 +79,7 @@ data_op = st.one_of(
     st.tuples(st.just("badattr"), ref, ref),
     st.tuples(st.just("edit"), ref, ref, st.integers(0, 9)),
     st.tuples(st.just("edit"), ref, ref, st.integers(0, 9)),
+    st.tuples(st.just("reattr"), ref, ref, small_value),
 )
 boundary_op = st.one_of(
     st.just(("commit",)), st.just(("commit",)), st.just(("commit",)), st.just(("commit",)),
@@ -206,6 +207,16 @@ def bind(op, tree):
         p = arrs[op[1] % len(arrs)]
         n = tree.lookup(p).value[2][0]
         return [dict(op="edit", abs=p, idx=op[2] % n, val=op[3])]
+    if kind == "reattr":  # an existing attribute (maybe of an older container) is overridden and deleted right away
+        allp = ["/"] + nodes
+        withattrs = [p for p in allp if tree.lookup(p).attrs]
+        if not withattrs:
+            return []
+        p = withattrs[op[1] % len(withattrs)]
+        keys = sorted(tree.lookup(p).attrs)
+        key = keys[op[2] % len(keys)]
+        return [dict(op="setattr", abs=p, key=key, v=storable(op[3], True), macro="reattr"),
+                dict(op="delattr", abs=p, key=key, macro="reattr")]
     if kind == "badattr":  # delete an attribute, then a write to it that HDF5 refuses: it must stay deleted
         allp = ["/"] + nodes
         withattrs = [p for p in allp if tree.lookup(p).attrs]
@@ -546,7 +557,7 @@ def _touch_paths(b):
     return []
 
 
-DATA_KINDS = {"set", "mkgrp", "del", "setattr", "delattr", "copy", "move", "copyinto", "replace", "touch", "renamesfx", "revive", "badattr", "edit"}
+DATA_KINDS = {"set", "mkgrp", "del", "setattr", "delattr", "copy", "move", "copyinto", "replace", "touch", "renamesfx", "revive", "badattr", "edit", "reattr"}
 
 
 class Session:
